@@ -28,7 +28,10 @@ struct mcount_regs {
 
 #define HAVE_MCOUNT_ARCH_CONTEXT
 struct mcount_arch_context {
-	double xmm[ARCH_MAX_FLOAT_ARGS];
+	/* whole 128-bit registers: vector and __float128 arguments use the upper half */
+	struct {
+		unsigned long v[2];
+	} xmm[ARCH_MAX_FLOAT_ARGS];
 };
 
 #define ARCH_PLT0_SIZE 16
